@@ -258,7 +258,7 @@ var shapes = []shape{
 	{4, [][2]int{{1, 0}, {2, 0}, {3, 0}}},         // fan-in, three dependents
 	{3, [][2]int{{2, 0}, {2, 1}}},                 // fan-out (c depends on a and b)
 	{4, [][2]int{{1, 0}, {2, 0}, {3, 1}, {3, 2}}}, // diamond
-	{3, nil},                                      // independent
+	{3, nil}, // independent
 	{2, [][2]int{{1, 0}}},
 	{4, [][2]int{{1, 0}, {2, 1}, {3, 2}}}, // long chain
 }
@@ -473,6 +473,16 @@ func genHealth(r *rand.Rand, sc *Scenario) {
 	}
 	if chance(r, 30) {
 		sc.Steps = append(sc.Steps, Step{When: When{Tick: r.Intn(t + 5)}, Do: Op{Kind: pick(r, "stop", "restart", "start"), P: "a"}})
+	}
+	if chance(r, 40) {
+		// a probe completion that arrives after the process has ended
+		sc.Steps = append(sc.Steps, Step{When: When{Event: "Done", P: "a", Nth: 1}, Do: Op{Kind: "probe", P: "a", Ok: chance(r, 70), Late: true}, DelayTick: r.Intn(2)})
+	}
+	if chance(r, 30) {
+		// keeps failing after the restart that followed the first fatal failure
+		for k := 0; k < 4; k++ {
+			sc.Steps = append(sc.Steps, Step{When: When{Event: "Launch", P: "a", Nth: 2}, Do: Op{Kind: "probe", P: "a", Ok: false}, DelayTick: 1 + 2*k})
+		}
 	}
 	if chance(r, 30) {
 		sc.Observe = append(sc.Observe, "a")
